@@ -35,6 +35,7 @@ PROPS["C19"] = dict(pkg="chain", level="exploration", stages=[
     direct("prune-crash", "TestC19PruneCrash"),
     direct("concurrent", "TestC19Concurrent", quick=dict(shards=4, timeout=900), thorough=dict(shards=8, timeout=3600)),
     direct("concurrent-race", "TestC19Concurrent", race=True, tiers=["thorough"]),
+    direct("large-backlog", "TestC19LargeBacklog", quick=dict(shards=2, timeout=900), thorough=dict(shards=3, timeout=3600)),
     rapid("rapid", "TestC19", dict(shards=16, checks=120), dict(shards=16, checks=4000, timeout=7000)),
 ])
 
